@@ -22,6 +22,7 @@ import (
 	"runtime"
 	"sort"
 	"strings"
+	"sync"
 	"testing"
 	"testing/synctest"
 	"time"
@@ -583,9 +584,31 @@ func run(t *testing.T, prop string, c simrt.Case, out *simrt.Outcome, lg *simrt.
 	w := &world{t: t, cfg: cfg, out: out, lg: lg, reg: simrt.NewRegistry(), prop: prop, nonces: map[common.Address]uint64{}, kvRef: map[string][]string{}}
 	simhook.GoHook = w.reg.Go
 	// the goroutines a dead incarnation leaves behind stop at their next lock attempt
+	// ... and, in the workloads that run reactors, a seeded share of the lock attempts of live nodes is held up
+	// for some microseconds of simulated time, so that different seeds see different interleavings of a node's
+	// goroutines around its locks
+	jitter := simrt.NewRand(cfg.Seed ^ 0x6a69747465)
+	jitterOn := prop == "C13" || prop == "C12" || prop == "C01"
+	var jmu sync.Mutex
 	simhook.YieldHook = func(site string) {
-		if inc, _ := w.reg.Current().(*fullnode.Inc); inc != nil && inc.Life.Dead() {
+		inc, _ := w.reg.Current().(*fullnode.Inc)
+		if inc == nil {
+			return
+		}
+		if inc.Life.Dead() {
 			select {}
+		}
+		if jitterOn {
+			jmu.Lock()
+			d := 0
+			if jitter.Intn(16) == 0 {
+				d = 1 + jitter.Intn(400)
+				out.Probes["lock_attempt_held_up"]++
+			}
+			jmu.Unlock()
+			if d > 0 {
+				time.Sleep(time.Duration(d) * time.Microsecond)
+			}
 		}
 	}
 	fullnode.AdminReg = w.reg
